@@ -1,6 +1,6 @@
 From Coq Require Import ZArith NArith List Bool.
 From RecordUpdate Require Import RecordSet.
-From PSO Require Import Raft.Types Raft.Node Raft.Net Raft.Obs Raft.ProofsSnapshotBase Raft.ProofsSnapshot Raft.ProofsSnapshotChunks Raft.ProofsSnapshotExamples.
+From PSO Require Import Raft.Types Raft.Node Raft.Net Raft.Obs Raft.ProofsSnapshotBase Raft.ProofsSnapshot Raft.ProofsSnapshotChunks Raft.ProofsSnapshotExamples Raft.ProofsDumpBacked.
 From PSO Require Raft.ProofsCommitBase Raft.ProofsCommit Raft.ProofsCommitLog.
 Import ListNotations.
 Import RecordSetNotations.
@@ -140,21 +140,28 @@ Theorem C09_chunk_ceil : forall len ch i, 1 <= ch -> (i < nchunks len ch <-> i *
 Proof. exact ceil_lt. Qed.
 Print Assumptions C09_chunk_ceil.
 
-Theorem C09_chunk_reassembly_receiver : forall b ch s, 1 <= ch ->
+Theorem C09_chunk_reassembly_receiver : forall b ch s, 1 <= ch -> snap_ahead b (applied (nd s)) = true ->
   recv_run (transfer b ch) s =
   (set_sr ((sr (nd s)) <| stored := Some b |> <| incoming := None |>) s,
    repeat false (N.to_nat (nchunks (blob_len b) ch)) ++ [true]).
 Proof. exact recv_transfer. Qed.
 Print Assumptions C09_chunk_reassembly_receiver.
 
-Theorem C09_chunk_reassembly_restarts : forall b ch ks s, 1 <= ch ->
+Theorem C09_chunk_reassembly_refused : forall b ch s, 1 <= ch -> snap_ahead b (applied (nd s)) = false ->
+  recv_run (transfer b ch) s =
+  (set_sr ((sr (nd s)) <| incoming := None |>) s,
+   repeat false (N.to_nat (nchunks (blob_len b) ch)) ++ [false]).
+Proof. exact recv_transfer_refused. Qed.
+Print Assumptions C09_chunk_reassembly_refused.
+
+Theorem C09_chunk_reassembly_restarts : forall b ch ks s, 1 <= ch -> snap_ahead b (applied (nd s)) = true ->
   let r := recv_run (restarts b ch ks ++ transfer b ch) s in
   stored (sr (nd (fst r))) = Some b /\ incoming (sr (nd (fst r))) = None /\
   last (snd r) false = true.
 Proof. exact recv_restarts_then_complete. Qed.
 Print Assumptions C09_chunk_reassembly_restarts.
 
-Theorem C09_chunk_reassembly_after_anything : forall pre b ch s, 1 <= ch ->
+Theorem C09_chunk_reassembly_after_anything : forall pre b ch s, 1 <= ch -> snap_ahead b (applied (nd s)) = true ->
   let r := recv_run (pre ++ transfer b ch) s in
   stored (sr (nd (fst r))) = Some b /\ incoming (sr (nd (fst r))) = None /\
   last (snd r) false = true.
@@ -246,13 +253,15 @@ Print Assumptions C09_other_destination_keeps_no_cursor.
 
 Theorem C09_inflight_loss_splices :
   exists g n3, run_trace cz ginit inflight_loss_trace = Some g /\ aget 3 (nodes g) = Some n3 /\
-    stored (sr n3) = Some (Corrupt 5) /\ applied n3 = 1 /\ map eidx (log n3) = [1].
+    stored (sr n3) = None /\ incoming (sr n3) = None /\ applied n3 = 1 /\ map eidx (log n3) = [1].
 Proof. exact inflight_loss_splices. Qed.
 Print Assumptions C09_inflight_loss_splices.
 
-Theorem C09_stored_snapshot_never_corrupt_refuted : ~ C09_stored_snapshot_never_corrupt_full.
-Proof. exact stored_snapshot_never_corrupt_refuted. Qed.
-Print Assumptions C09_stored_snapshot_never_corrupt_refuted.
+(* formerly C09_stored_snapshot_never_corrupt_refuted: its witness was the spliced file of
+   C09_inflight_loss_splices, which setTransmissionData no longer stores; the statement now holds *)
+Theorem C09_stored_snapshot_never_corrupt : C09_stored_snapshot_never_corrupt_full.
+Proof. exact stored_snapshot_never_corrupt. Qed.
+Print Assumptions C09_stored_snapshot_never_corrupt.
 
 (* the install keeps what the follower holds behind the snapshot (positive statement of the repair of
    `install_drops_acked`): with consecutive indices and the snapshot's two entries in the log, the
